@@ -4,6 +4,7 @@ use proptest::prelude::*;
 use serde_json::{json, Map, Value};
 use std::io::{BufRead, BufReader, Write};
 use std::os::unix::net::UnixStream;
+use std::time::Duration;
 use std::sync::atomic::{AtomicUsize, Ordering};
 use std::sync::{Arc, Mutex, RwLock};
 use vl_model::ctx::{hash64, load_replay, Args, Ctx};
@@ -601,6 +602,83 @@ fn live_server(sock: UnixStream) -> LiveServer {
     LiveServer { handle: Some(handle) }
 }
 
+/// Thread A's plain call is outstanding (the peer holds its reply back); thread B's call on the shared
+/// connection fails at once with a busy error and writes nothing - it does not wait for A's reply.
+pub fn run_busy_while_call_outstanding() -> Result<(), Fail> {
+    use std::io::{BufRead, Write};
+    let (client, server) = UnixStream::pair().map_err(|e| Fail::new("HARNESS/socketpair", e.to_string()))?;
+    let mut c = varlink::Connection::default();
+    let r: Box<dyn std::io::Read + Send + Sync> = Box::new(client.try_clone().map_err(|e| Fail::new("HARNESS/clone", e.to_string()))?);
+    c.reader = Some(BufReader::new(r));
+    c.writer = Some(Box::new(client));
+    let conn = std::sync::Arc::new(std::sync::RwLock::new(c));
+    let (release_tx, release_rx) = std::sync::mpsc::channel::<()>();
+    let (arrived_tx, arrived_rx) = std::sync::mpsc::channel::<usize>();
+    // the peer: reads requests, reports each arrival, answers the first one only when told to
+    let peer = std::thread::spawn(move || {
+        let mut w = server.try_clone().ok()?;
+        let mut r = BufReader::new(server);
+        let mut n = 0usize;
+        loop {
+            let mut buf = vec![];
+            match r.read_until(0, &mut buf) {
+                Ok(0) | Err(_) => break,
+                Ok(_) => {}
+            }
+            n += 1;
+            let _ = arrived_tx.send(n);
+            if n == 1 {
+                let _ = release_rx.recv_timeout(Duration::from_secs(10));
+            }
+            let req: Value = serde_json::from_slice(&buf[..buf.len().saturating_sub(1)]).unwrap_or(Value::Null);
+            let mut out = json!({"parameters": {"tok": req["parameters"]["tok"]}}).to_string().into_bytes();
+            out.push(0);
+            if w.write_all(&out).is_err() {
+                break;
+            }
+        }
+        Some(n)
+    });
+    let ca = conn.clone();
+    let a = std::thread::spawn(move || vcall(&ca, "org.x.A", json!({"tok": "A"})).call().map_err(|e| e.kind().clone()));
+    // wait until A's request is with the peer
+    if arrived_rx.recv_timeout(Duration::from_secs(5)).is_err() {
+        let _ = release_tx.send(());
+        return Err(Fail::new("HARNESS/a-did-not-send", "thread A's request did not arrive".to_string()));
+    }
+    let cb = conn.clone();
+    let (done_tx, done_rx) = std::sync::mpsc::channel();
+    let b = std::thread::spawn(move || {
+        let r = vcall(&cb, "org.x.B", json!({"tok": "B"})).call().map_err(|e| e.kind().clone());
+        let _ = done_tx.send(r);
+    });
+    let verdict = match done_rx.recv_timeout(Duration::from_secs(2)) {
+        Ok(Err(varlink::ErrorKind::ConnectionBusy)) => Ok(()),
+        Ok(other) => Err(Fail::new(
+            "threads/no-busy-error",
+            format!("a call from another thread while a plain call was outstanding returned {:?} instead of a busy error", other),
+        )),
+        Err(_) => Err(Fail::new(
+            "threads/busy-call-blocks",
+            "a call from another thread while a plain call was outstanding did not return within 2 s (it must fail immediately with a busy error, not wait for the other call's reply)".to_string(),
+        )),
+    };
+    let _ = release_tx.send(());
+    let ra = a.join().map_err(|_| Fail::new("threads/panic", "thread A panicked".to_string()))?;
+    let _ = b.join();
+    drop(conn);
+    let seen = peer.join().ok().flatten().unwrap_or(0);
+    verdict?;
+    match ra {
+        Ok(v) if v["tok"] == "A" => {}
+        other => return Err(Fail::new("threads/foreign-reply", format!("thread A's call returned {:?}", other))),
+    }
+    if seen != 1 {
+        return Err(Fail::new("threads/busy-wrote-bytes", format!("the peer received {} requests, only thread A's may reach it", seen)));
+    }
+    Ok(())
+}
+
 pub fn run_threads(lists: &[Vec<TOp>]) -> Result<usize, Fail> {
     let (client, server) = UnixStream::pair().expect("socketpair");
     let srv = live_server(server);
@@ -713,6 +791,14 @@ pub fn run_threads(lists: &[Vec<TOp>]) -> Result<usize, Fail> {
 }
 
 fn part_c(ctx: &mut Ctx) {
+    for k in 0..ctx.tier.pick(20, 300) {
+        ctx.case(Some(hash64(&("busy-while-call-outstanding", k))));
+        ctx.class("c:second-thread-while-a-plain-call-waits-for-its-reply");
+        if let Err(f) = pt::guard(run_busy_while_call_outstanding) {
+            ctx.violation(&f.key, &f.what, "c07c", json!({"busy_while_call_outstanding": true}));
+            break;
+        }
+    }
     let top = prop_oneof![
         3 => Just(TOp::Call),
         2 => (0u8..3).prop_map(TOp::More),
